@@ -146,7 +146,7 @@ NEEDS = {
     ("omm", "covframe"): "cov",
 }
 # dimensions whose VALUE is not part of a signature label (many values, one behaviour)
-COARSE = {"frame", "scale", "man", "types", "paths", "covpat", "manpos"}
+COARSE = {"frame", "scale", "man", "types", "paths", "covpat", "manpos", "kw"}
 
 
 def enumerate_specs(mtype, bound):
